@@ -1,0 +1,17 @@
+//go:build verif
+
+package jsonrpc
+
+import (
+	"bufio"
+	"io"
+)
+
+// VerifIsBatch runs isBatch exactly as HandleReader does: through a bufio.Reader of bufferSize bytes
+// wrapped around the request reader. Read-only wrapper for the verification harness (check C11).
+func VerifIsBatch(reader io.Reader) bool {
+	return isBatch(bufio.NewReaderSize(reader, bufferSize))
+}
+
+// VerifBufferSize returns the size of HandleReader's bufio window (the reach of isBatch's Peek).
+func VerifBufferSize() int { return bufferSize }
